@@ -159,7 +159,7 @@ Proof.
     eapply osend_closed; [exact (HJ eq_refl)| |exact H]. intros Y r2 ev2 O E. cbv beta in E. eapply send_tx_list_not_open; [exact O|exact E].
   - cbv zeta in H. destruct (valid_dev r (bcast_dev dst idev)); [|injection H as <- <-; apply keeps_closed; [exact A|apply keeps_refl]].
     eapply osend_closed; [exact (HJ eq_refl)| |exact H]. intros Y r2 ev2 O E. cbv beta in E. eapply send_rx_list_not_open; [exact O|exact E].
-  - destruct (negb _); [injection H as <- <-; apply keeps_closed; [exact A|apply keeps_refl]|].
+  - destruct (negb _ || negb _); [injection H as <- <-; apply keeps_closed; [exact A|apply keeps_refl]|].
     destruct (hb_all_closed (HKJ eq_refl) _ _ _ _ _ _ (HJ eq_refl) H) as (-> & B & C).
     split; [reflexivity|]. split; [apply JK, B|exact C].
   - destruct (is_active_node (rn r)); cbn [andb] in H; [|injection H as <- <-; apply keeps_closed; [exact A|apply keeps_refl]].
@@ -256,21 +256,9 @@ Proof.
   destruct (is_hb_all a) eqn:Hb.
   - (* SendHeartbeat(force): the clock is sane, every Open() of the call fails like the first *)
     destruct a; try discriminate Hb. cbn [api_step] in H.
-    destruct (is_active_node (rn r)) eqn:Act; cbn [negb] in H; [|injection H as <- <-; auto].
-    pose (J := fun r => n_open (rn r) <> 3 /\ will_open r = false /\ (w64 r = true -> 0 <= now r < 2^63)).
-    assert (J0: J r).
-    { split; [exact O|]. split; [rewrite <- open_completes_will; apply HC; reflexivity|]. intros Hw. apply Hclk; [exact Hw|].
-      unfold is_active_node in Act. unfold claims_addresses. destruct (n_mode (rn r) =? 1) eqn:M1.
-      - apply Z.eqb_eq in M1. rewrite M1. reflexivity.
-      - cbn [orb] in Act. apply Z.eqb_eq in Act. rewrite Act. reflexivity. }
-    assert (Jk: forall r r', J r -> keeps r r' -> J r').
-    { intros x x' (A & B & C) Kp. pose proof (will_open_keeps _ _ Kp) as Wk. destruct Kp as (K1 & K2 & K3 & _).
-      unfold J, w64, now in *. rewrite K1, K2, K3, Wk. auto. }
-    assert (Js: forall r r1 ev b, J r -> open_step r = (r1, ev, b) -> ev = [] /\ n_open (rn r) <> 3 /\ J r1 /\ qd r r1).
-    { intros x x1 e b (A & B & C) E. destruct (open_step_again _ _ _ _ A B C E) as (S1 & S2 & S3 & S4 & S5 & S6).
-      split; [exact S1|]. split; [exact A|]. split; [|exact S6]. unfold J. rewrite S4, S5. auto. }
-    assert (Jo: forall r, J r -> n_open (rn r) <> 3) by (intros x (A & _); exact A).
-    destruct (hb_all_closed J J Jo Jk Jk Js (fun _ x => x) force _ _ _ _ _ J0 H) as (-> & (A & _) & (B & C)). auto.
+    (* since the repair in /repo (SendHeartbeat(bool) does nothing before Open() has completed) this call is silent on a node that is not open *)
+    assert (E3: (n_open (rn r) =? 3) = false) by (apply Z.eqb_neq; exact O).
+    rewrite E3 in H. cbn [negb] in H. rewrite orb_true_r in H. injection H as <- <-. auto.
   - apply (Hfin (fun r => n_open (rn r) <> 3) (fun _ x => x)).
     apply (api_step_closed (fun r => n_open (rn r) <> 3 /\ open_completes r = false) (fun r => n_open (rn r) <> 3)) with (a := a); try assumption.
     + intros x (A & _). exact A.
@@ -293,18 +281,8 @@ Proof.
 Qed.
 Print Assumptions xstep_not_open_silent.
 
-(* without the clock hypothesis: two devices, NodeOnly, CAN not yet opened, 100 ms before the 64-bit clock wraps.  The first device's
-   SendMsg opens the CAN interface and arms the settle timer at (now + 200) mod 2^64 = 100, which the second device's SendMsg finds
-   expired: the node opens and the initial address claims go out *)
-Definition wrap_node : rnode :=
-  cold_node true 1 18446744073709551516 40 5 no_lists [mk_dev true 30 13849079829268463617 []; mk_dev true 31 13849079829268463618 []] [[]; []] api_ex_cfg.
-Definition wrap_ready : rnode := with_rn wrap_node (set_now (rn wrap_node) 18446744073709551517).
-Theorem api_not_open_noclock_refuted : api_not_open_noclock_refuted_stmt.
-Proof.
-  exists wrap_ready, true, 418316062, 8, [1; 0; 147; 169; 186; 208; 49; 192], true.
-  split; [vm_compute; discriminate|]. split; [reflexivity|]. split; [vm_compute; reflexivity|]. vm_compute. auto.
-Qed.
-Print Assumptions api_not_open_noclock_refuted.
+(* (the boundary example without the clock hypothesis - SendHeartbeat(force) opening the node in the last 200 ms before the 64-bit clock wraps -
+   is gone: since the repair in /repo that call does nothing on a node that is not open) *)
 
 (* ================= 4. the settle delay ================= *)
 Lemma cold_inv_keeps w t0 r r' : cold_inv w t0 r -> keeps r r' -> cold_inv w t0 r'.
